@@ -81,8 +81,48 @@ func runC02(c *fw.Case) (o fw.Outcome) {
 		}
 	}
 	ch := genChoices(r, cfg.Reg)
+	// one run in eight: the SMF REFUSES the session of one UE (a legal answer). That UE has not completed establishment:
+	// whether the emulator stops there or carries on, it must not start a service request or a release for it. Exit
+	// status and banner are not judged in these runs, only what reaches the AMF afterwards.
+	reject := c.Idx%32 == 12 && !overflow
+	if reject {
+		if cfg.Reg == 0 || cfg.Pdu == 0 {
+			cfg.Reg, cfg.Pdu = 1+r.Intn(3), 1+r.Intn(3)
+			ch = genChoices(r, cfg.Reg)
+		}
+		if cfg.Svc+cfg.Rel == 0 {
+			cfg.Svc, cfg.Rel = 1+r.Intn(3), 1+r.Intn(3)
+		}
+		n := cfg.Reg
+		if cfg.Pdu < n {
+			n = cfg.Pdu
+		}
+		ch.RejectSessionOf = 1 + r.Intn(n)
+		o.Tag("smf-rejects-one-session")
+	}
 	sp := procdrv.Spec{Cfg: cfg, Choices: ch, Fault: refamf.Fault{At: -1}, Args: []string{"-t"}, Watchdog: 30*time.Second + 8*nominalDuration(cfg), Strace: c.Idx%32 == 0}
+	if reject {
+		sp.Watchdog = 20*time.Second + 2*nominalDuration(cfg)
+	}
 	res := procdrv.Run(workDir(), emuPath(), sp)
+	if reject {
+		o.Input = fmt.Sprintf("vector(reg,pdu,svc,rel,dereg)=%v, the SMF rejects the session of UE %d; config=%s", [5]int{cfg.Reg, cfg.Pdu, cfg.Svc, cfg.Rel, cfg.Dereg}, ch.RejectSessionOf-1, cfgSummary(cfg))
+		o.Digest, o.Nontrivial = fw.HashS(o.Input), true
+		if res.Err != nil {
+			o.Inconcl("could not run the emulator: %v", res.Err)
+			return
+		}
+		if res.AMF.Rejected == 0 {
+			o.Inconcl("the run ended before the establishment request of UE %d", ch.RejectSessionOf-1)
+			return
+		}
+		o.Count("sessions_rejected_by_choice", int64(res.AMF.Rejected))
+		if len(res.AMF.Violations) > 0 {
+			vv := res.AMF.Violations[0]
+			o.Fail(vv.Key, "after the SMF rejected the session of UE %d: %s\n conversation:%s\n emulator stdout tail: %s", ch.RejectSessionOf-1, vv.Msg, conversationSummary(res.AMF, 60), tail(res.Stdout, 300))
+		}
+		return
+	}
 	o.Input = fmt.Sprintf("vector(reg,pdu,svc,rel,dereg)=%v config=%s amf_ids=%v ueip=%v upf=%v teid=%#x qos=%d accept_opts=%04b", v, cfgSummary(cfg), ch.AmfIDs, ch.UEIPBase, ch.UPF, ch.TEIDBase, ch.QosRulesLen, ch.AcceptOptMask)
 	o.Digest = fw.HashS(o.Input)
 	o.Nontrivial = true
